@@ -397,16 +397,24 @@ class StaticFiles(Stream):
             return "404|-"
         return f"{code}|{body.hex() or '-'}"
 
+    @staticmethod
+    def existing_files():
+        t = tree()
+        out = []
+        for dirpath, _dirs, files in os.walk(t["base"]):
+            out += [os.path.join(dirpath, f) for f in files]
+        return sorted(out)
+
     def model_line(self, case):
+        # the model computes the whole decision (safe_join, export matching, 404); the file system
+        # enters as the list of existing regular files (os.path.isfile as an opaque predicate)
         root = root_of(case)
         path = self.decoded(case)
-        try:
-            hs(path)
-        except UnicodeEncodeError:
-            return None
-        if case["kind"] == "sdm-exact":
-            return None  # export key == path: directory loader is called with None (no join); oracle only
-        return line("safejoin", hs(root), hs(path[len("/static/") :]))
+        files = [hs(f) for f in self.existing_files()]
+        if case["kind"] == "sfd":
+            return line("sfd", hs(os.getcwd()), hs(root), hs(path[len("/static/") :]), *files)
+        search = path if case["kind"] == "sdm-exact" else "/static"
+        return line("sdm", hs(os.getcwd()), hs(path), hs(search), hs(root), *files)
 
     def canon_model(self, case, out):
         # the file system is outside the model: complete the model's joined path with os.path.isfile
@@ -415,12 +423,6 @@ class StaticFiles(Stream):
         if out.startswith("EXC") or out.startswith("BAD") or out.startswith("UNKNOWN"):
             return out
         p = unhs(out)
-        try:
-            ok = os.path.isfile(p)
-        except ValueError:
-            ok = False
-        if not ok:
-            return "404|-"
         with open(p, "rb") as f:
             return "200|" + f.read().hex()
 
